@@ -130,7 +130,9 @@ def main():
                 continue
             seen.add(v["signature"])
             print("hrsim: %s :: %s" % (v["signature"], v["message"]))
-            print("VIOLATION property=%s replay=%s" % (prop, v.get("replay", "")))
+            # the VIOLATION line is printed by check, after the case has reproduced in a fresh process
+            with open(os.path.join(outdir, "candidates.txt"), "a") as cf:
+                cf.write(v.get("replay", "") + "\n")
         return 1
     if len(nontrivial) < 2:
         print("hrsim: fewer than 2 non-trivial cases were explored; the run proves nothing", file=sys.stderr)
